@@ -75,6 +75,19 @@ let run_membership (toks : string list) : string =
     (match parse_history evs with
      | Some hist -> run_history Model.legacy_differ_step (n self) hist
      | None -> "?bad-case")
+  | "dist" :: self :: snaps ->
+    (* the consumer applies every published change in order (left, then joined): the batch goes to
+       the addresses of the live map it then holds *)
+    let self = n self in
+    let _, live =
+      List.fold_left
+        (fun (pb, live) t ->
+          let c, pb' = Model.differ_step self pb (parse_snapshot t) in
+          (pb', Model.apply live c))
+        (Model.init_pub, []) snaps
+    in
+    let addrs = List.sort_uniq compare (List.map (fun (_, a) -> int_of_n a) live) in
+    "recv=[" ^ String.concat "," (List.map (Printf.sprintf "%x") addrs) ^ "]"
   | [ "diff"; self; a; b ] -> show_change (Model.differ (n self) (parse_snapshot a) (parse_snapshot b))
   | [ "ldiff"; self; a; b ] ->
     show_change (Model.legacy_differ (n self) (parse_snapshot a) (parse_snapshot b))
